@@ -115,6 +115,12 @@ Agreement ==
         LET f == FileNamed(S, t.f) IN
         /\ ~Dropped(S, t, {})
         /\ FieldViol(ExpFields(S, f, t.it, t.it), BuiltFields(S, f, t.it, t.it, 8, {})) = {}
+AgreementD ==
+  LET S == SetOf(c) IN
+     \A t \in {t \in TypesOf(S) : t.k = "complex"} :
+        LET f == FileNamed(S, t.f) IN
+        /\ ~Dropped(S, t, Dev)
+        /\ FieldViol(ExpFields(S, f, t.it, t.it), BindNs(BuiltFields(S, f, t.it, t.it, 8, Dev), t.ns, Dev)) = {}
 \* the declarative semantics itself: the base's members are a prefix of the derived type's members
 BasePrefix ==
   LET S == SetOf(c) IN
